@@ -22,6 +22,9 @@ pub enum DOp {
 pub struct DensPlan {
     pub spec: USpec,
     pub ops: Vec<DOp>,
+    /// the generator planted pairs of items that tie exactly in f32 (same bin, same value)
+    #[serde(default)]
+    pub planted_ties: u32,
 }
 
 pub struct Dens;
@@ -94,12 +97,13 @@ impl Scenario for Dens {
             let n = rng.range(1_000_000, 1_300_000);
             let base = rng.u64() >> 2;
             let items: Vec<u64> = (0..n).map(|k| if spec.elem == ElemT::U32 { (base + k) & 0xffff_ffff } else { base + k }).collect();
-            return DensPlan { spec, ops: vec![DOp::Slice(items)] };
+            return DensPlan { spec, ops: vec![DOp::Slice(items)], planted_ties: 0 };
         }
         let m = spec.m;
         let pool = crate::sc_stream::gen_items(rng, (3 * m).clamp(4, 3000), spec.elem);
         let nseg = rng.urange(1, 3);
         let mut ops = vec![];
+        let mut planted = 0u32;
         for s in 0..nseg {
             if s > 0 {
                 ops.push(DOp::Reinit);
@@ -120,6 +124,7 @@ impl Scenario for Dens {
             if spec.kind.is_f32_dens() && m <= 16 && rng.chance(0.25) {
                 let ties = f32_tie_pairs(&spec);
                 if !ties.is_empty() {
+                    planted += 1;
                     let (a, b) = *rng.pick(&ties);
                     let pos = rng.usize_below(items.len() + 1);
                     items.insert(pos, a);
@@ -175,7 +180,7 @@ impl Scenario for Dens {
                 }
             }
         }
-        DensPlan { spec, ops }
+        DensPlan { spec, ops, planted_ties: planted }
     }
 
     fn execute(&self, plan: &DensPlan, ctx: &mut Ctx) -> Result<(), Violation> {
@@ -188,6 +193,9 @@ impl Scenario for Dens {
         let mut u32_of: BTreeMap<u64, u64> = BTreeMap::new();
         let mut finished: Vec<Finished> = vec![];
         let mut any_nonempty_finish = false;
+        if plan.planted_ties > 0 {
+            ctx.count_n("fault:exact-f32-tie-pair-planted", plan.planted_ties as u64);
+        }
 
         for op in &plan.ops {
             match op {
